@@ -128,6 +128,9 @@ pub struct WalletSim {
     /// heights h such that some successful scan batch started at h + 1: `update_tree` inserted (and, on the
     /// retention grid, retained) the batch's starting frontier as a checkpoint at h in every pool
     pub frontier_starts: BTreeSet<u32>,
+    /// heights whose block data the wallet holds (they stay in `scanned`) but which the scan queue was told to
+    /// scan again (forced rescan through rewind_to_chain_state / queue_rescans)
+    pub requeued: BTreeSet<u32>,
 }
 
 pub fn open_conn(path: &std::path::Path, wal: bool) -> Connection {
@@ -226,6 +229,7 @@ impl WalletSim {
             last_root_err: None,
             late_boundaries: BTreeSet::new(),
             frontier_starts: BTreeSet::new(),
+            requeued: BTreeSet::new(),
         };
         let birthday = AccountBirthday::from_parts(s.chain.chain_state_at(s.cfg.base_height).unwrap(), None);
         for i in 0..s.cfg.n_accounts {
@@ -348,6 +352,14 @@ impl WalletSim {
         }
         // blocks the wallet had scanned on the abandoned branch: their wallet transactions become orphans
         let scanned_dropped: Vec<u32> = self.scanned.iter().copied().filter(|x| *x > h).collect();
+        // tree state of the abandoned branch may survive without any block: a batch's starting frontier stays
+        // checkpointed after its blocks were rewound away. The wallet cannot notice such a fork by comparing block
+        // hashes; like any un-rewound fork it must be rewound below before scanning the new branch.
+        let stale_frontier = self.frontier_starts.iter().any(|x| *x > h);
+        if stale_frontier && scanned_dropped.is_empty() {
+            ctx.probe("fork_below_blockless_frontier");
+            self.dirty_fork = Some(self.dirty_fork.map(|d| d.min(h)).unwrap_or(h));
+        }
         if !scanned_dropped.is_empty() {
             self.dirty_fork = Some(self.dirty_fork.map(|d| d.min(h)).unwrap_or(h));
             for b in &dropped {
@@ -359,6 +371,7 @@ impl WalletSim {
         for x in scanned_dropped {
             self.scanned.remove(&x);
         }
+        self.requeued.retain(|x| *x <= h);
         self.stale = dropped;
         ctx.fault("reorg");
     }
@@ -440,6 +453,9 @@ impl WalletSim {
             }
         }
         for h in a..b {
+            if self.requeued.remove(&h) {
+                ctx.probe("forced_rescan_done");
+            }
             if self.scanned.contains(&h) {
                 ctx.probe("rescan_idempotent_hit");
             }
@@ -515,8 +531,129 @@ impl WalletSim {
         }
     }
 
+    /// Pointwise view of the stored queue: priority code per height.
+    fn queue_pointwise(&self) -> Result<BTreeMap<u32, i64>, String> {
+        let q = read_queue(&self.conn)?;
+        let mut m = BTreeMap::new();
+        for (a, b, p) in q {
+            for h in a..b {
+                m.insert(h, p);
+            }
+        }
+        Ok(m)
+    }
+
+    /// rewind_to_chain_state(target) on the current chain (a forced rescan, not reorg handling): every height above
+    /// the target must be queued for scanning again up to the tip the wallet knew, nothing at or below it may change.
+    pub fn rewind_chain_state(&mut self, target: u32, reset_all: bool, ctx: &mut RunCtx, owns_queue: bool) -> Result<Result<(), String>, Violation> {
+        let Some(cs) = self.chain.chain_state_at(target) else { return Ok(Err("no chain state".into())) };
+        let pre = self.queue_pointwise().map_err(|e| Violation::new("queue_readable", e))?;
+        let old_max = self.scanned.iter().next_back().copied();
+        let reset: std::collections::HashSet<_> = if reset_all { self.accounts.iter().copied().collect() } else { Default::default() };
+        if std::env::var_os("ZSIM_DEBUG").is_some() {
+            for t in ["sapling", "orchard", "ironwood"] {
+                let ids: Vec<u32> = self.conn.prepare(&format!("SELECT checkpoint_id FROM {t}_tree_checkpoints ORDER BY 1")).unwrap().query_map([], |r| r.get(0)).unwrap().map(|x| x.unwrap()).collect();
+                eprintln!("  {t} checkpoints before: {ids:?}");
+            }
+            let bl: Vec<u32> = self.conn.prepare("SELECT height FROM blocks ORDER BY 1").unwrap().query_map([], |r| r.get(0)).unwrap().map(|x| x.unwrap()).collect();
+            eprintln!("  blocks before: {bl:?}; target {target} reset_all {reset_all}");
+        }
+        let r = {
+            let mut d = db!(self);
+            catch(|| d.rewind_to_chain_state(cs, reset))
+        };
+        match r {
+            Err(m) => Err(Violation::keyed("no_panic", format!("panic:{}", crate::runner::panic_site(&m)), format!("rewind_to_chain_state({target}) panicked: {m}"))),
+            Ok(Err(e)) => Ok(Err(format!("{e:?}"))),
+            Ok(Ok(())) => {
+                // what the wallet kept: blocks up to db_max
+                let db_max: Option<u32> = self.conn.query_row("SELECT MAX(height) FROM blocks", [], |r| r.get(0)).map_err(|e| Violation::new("blocks_readable", e.to_string()))?;
+                let n_blocks: i64 = self.conn.query_row("SELECT COUNT(*) FROM blocks", [], |r| r.get(0)).unwrap_or(-1);
+                ctx.event(format!("rewind_to_chain_state({target}): wallet keeps {n_blocks} blocks, highest {db_max:?}; model max scanned {old_max:?}"));
+                if let Some(om) = old_max {
+                    // the wallet may discard scanned data down to its pruning floor, never below it
+                    let kept = db_max.unwrap_or(self.cfg.base_height);
+                    let floor = om.saturating_sub(99).min(target);
+                    if kept < floor && self.scanned.iter().any(|h| *h <= floor && *h > kept) {
+                        return viol(ctx, owns_queue, Violation::new("rewind_preserves_data_below_pruning_floor", format!("rewind_to_chain_state({target}): blocks above {kept} are gone although scanned blocks up to {floor} lie at or below both the target and the pruning floor"))).map(|_| Ok(()));
+                    }
+                    if kept < om {
+                        if kept < target {
+                            ctx.probe("forced_rescan_discarded_data_below_target");
+                        }
+                        // tree state may survive above the highest kept block: the starting frontier of a batch whose
+                        // blocks are gone stays checkpointed
+                        let fs = self.frontier_starts.clone();
+                        self.model_truncated(kept, ctx);
+                        let tree_max: Option<u32> = self.conn.query_row("SELECT MAX(checkpoint_id) FROM sapling_tree_checkpoints", [], |r| r.get(0)).unwrap_or(None);
+                        if let Some(tm) = tree_max {
+                            self.frontier_starts.extend(fs.into_iter().filter(|x| *x <= tm));
+                        }
+                    }
+                }
+                let again: Vec<u32> = self.scanned.iter().copied().filter(|h| *h > target).collect();
+                for h in again {
+                    self.requeued.insert(h);
+                }
+                let post = self.queue_pointwise().map_err(|e| Violation::new("queue_readable", e))?;
+                ctx.oracle("forced_rescan_requeues_everything_above_target");
+                let t = pre.keys().next_back().copied();
+                if let Some(t) = t {
+                    for h in (target + 1)..=t {
+                        let p = post.get(&h).copied();
+                        if p.map(|p| p <= 10).unwrap_or(true) {
+                            return viol(ctx, owns_queue, Violation::new("forced_rescan_requeues_everything_above_target", format!("rewind_to_chain_state({target}) with wallet tip {t}: height {h} has queue priority {p:?} afterwards (was {:?})", pre.get(&h)))).map(|_| Ok(()));
+                        }
+                    }
+                    let kept = db_max.unwrap_or(self.cfg.base_height);
+                    for (h, p) in pre.iter().filter(|(h, _)| **h <= target.min(kept) && **h > self.cfg.base_height) {
+                        if post.get(h) != Some(p) {
+                            return viol(ctx, owns_queue, Violation::new("forced_rescan_leaves_queue_below_target", format!("rewind_to_chain_state({target}): height {h} changed priority {p} -> {:?}", post.get(h)))).map(|_| Ok(()));
+                        }
+                    }
+                }
+                Ok(Ok(()))
+            }
+        }
+    }
+
+    /// queue_rescans(a..b, priority): pointwise, the documented dominance rule with forced rescans.
+    pub fn queue_rescan(&mut self, a: u32, b: u32, prio: ScanPriority, ctx: &mut RunCtx, owns_queue: bool) -> Result<Result<(), String>, Violation> {
+        let pre = self.queue_pointwise().map_err(|e| Violation::new("queue_readable", e))?;
+        let r = {
+            let mut d = db!(self);
+            catch(|| d.queue_rescans(nonempty::NonEmpty::singleton(BlockHeight::from_u32(a)..BlockHeight::from_u32(b)), prio))
+        };
+        match r {
+            Err(m) => Err(Violation::keyed("no_panic", format!("panic:{}", crate::runner::panic_site(&m)), format!("queue_rescans({a}..{b}, {prio:?}) panicked: {m}"))),
+            Ok(Err(e)) => Ok(Err(format!("{e}"))),
+            Ok(Ok(())) => {
+                let post = self.queue_pointwise().map_err(|e| Violation::new("queue_readable", e))?;
+                let ins = prio_code(prio);
+                ctx.oracle("rescan_insertion_pointwise_dominance");
+                for (h, p) in &pre {
+                    let want = if (a..b).contains(h) {
+                        if ins == 60 || ins == 10 || ins > *p { ins } else { *p }
+                    } else {
+                        *p
+                    };
+                    if post.get(h) != Some(&want) {
+                        return viol(ctx, owns_queue, Violation::new("rescan_insertion_pointwise_dominance", format!("queue_rescans({a}..{b}, {prio:?}): height {h} had priority {p}, expected {want} afterwards, found {:?}", post.get(h)))).map(|_| Ok(()));
+                    }
+                }
+                for h in a..b {
+                    if self.scanned.contains(&h) && post.get(&h).map(|p| *p > 10).unwrap_or(false) {
+                        self.requeued.insert(h);
+                    }
+                }
+                Ok(Ok(()))
+            }
+        }
+    }
+
     pub fn model_truncated(&mut self, got: u32, ctx: &mut RunCtx) {
         self.frontier_starts.retain(|x| *x <= got);
+        self.requeued.retain(|x| *x <= got);
         // blocks above `got` that were scanned on the *current* chain: their wallet transactions become orphans too
         let above: Vec<u32> = self.scanned.iter().copied().filter(|x| *x > got).collect();
         let (notes, _) = self.chain.ledger();
@@ -825,9 +962,24 @@ impl WalletSim {
         for e in &q {
             for h in e.0..e.1 {
                 let is_scanned = e.2 == 10;
-                let model = self.scanned.contains(&h);
+                let model = self.scanned.contains(&h) && !self.requeued.contains(&h);
                 if h > self.cfg.base_height && is_scanned != model && self.dirty_fork.is_none() {
                     return viol(ctx, owns, Violation::new("scanned_iff_marked_scanned", format!("height {h}: queue priority {} but model scanned = {model}", e.2)));
+                }
+            }
+        }
+        // every height between the birthday and the tip the queue knows is either scanned or queued for scanning
+        if self.dirty_fork.is_none() {
+            if let Some(end) = q.last().map(|e| e.1) {
+                ctx.oracle("unscanned_heights_are_queued");
+                for h in (self.cfg.base_height + 1)..end {
+                    if self.scanned.contains(&h) {
+                        continue;
+                    }
+                    let p = q.iter().find(|e| (e.0..e.1).contains(&h)).map(|e| e.2);
+                    if p.map(|p| p <= 10).unwrap_or(true) {
+                        return viol(ctx, owns, Violation::new("unscanned_heights_are_queued", format!("height {h} (birthday {}, queue reaches {end}) holds no scanned block and has queue priority {p:?}: nothing will ever suggest scanning it", self.cfg.base_height + 1)));
+                    }
                 }
             }
         }
